@@ -165,10 +165,66 @@ def legacy_line(c):
     return '(5 1 1 %s %s %d %d %s)' % (common.dump(c['sig']), common.dump(bytes(c['data'])), c['off'], 1 if c['le'] else 0, fds)
 
 
+SIG_CANARY = 'valid-message-refused-after-hostile-input'
+
+
+def canary_messages(message):
+    """a few VALID messages with nested containers and variants; they must decode whatever was decoded before them"""
+    out = []
+    for mk in (lambda: message.MethodCallMessage('/a', 'M', signature='a{sv}', body=[{'k': 1, 's': 'x'}]),
+               lambda: message.SignalMessage('/a', 'S', 'a.b', signature='aai', body=[[[1, 2], [3]]]),
+               lambda: message.MethodReturnMessage(7, signature='v', body=[[1, 'x', [2, 'y']]]),
+               lambda: message.ErrorMessage('a.Err', 7, signature='s', body=['text'])):
+        try:
+            out.append(bytes(mk().rawMessage))
+        except Exception:
+            pass
+    return out
+
+
+def canary_failure(message, raws):
+    for r in raws:
+        try:
+            message.parseMessage(r, [])
+        except Exception as e:
+            return '%s: %s' % (type(e).__name__, e)
+    return None
+
+
+def replay_canary(c, res):
+    """kind 'canary': decode the recorded hostile inputs in order, then the valid messages"""
+    from txdbus import marshal, message
+    raws = canary_messages(message)
+    for h in c['after']:
+        try:
+            if h['kind'] == 'msg':
+                mf = h.get('fds', [])
+                message.parseMessage(bytes(h['raw']), None if mf is None else list(mf))
+            else:
+                marshal.unmarshal(h['sig'], bytes(h['data']), h['off'], h['le'], None if h['fds'] is None else list(h['fds']))
+        except BaseException:
+            pass
+    res.count(['canary', len(c['after'])], nontrivial=True)
+    why = canary_failure(message, raws)
+    if why is not None:
+        res.violate(c, 'after decoding %d malformed inputs (each of which only raised), a VALID message is refused: %s - the cost of '
+                    'hostile bytes is not confined to the peer that sent them' % (len(c['after']), why), SIG_CANARY)
+
+
 def evaluate(ctx, cases, res):
     from txdbus import marshal, message
     txdir = os.path.dirname(os.path.abspath(marshal.__file__)) + os.sep
     cases = list(cases)
+    for c in [c for c in cases if c.get('kind') == 'canary']:
+        replay_canary(c, res)
+    cases = [c for c in cases if c.get('kind') != 'canary']
+    if not cases:
+        return
+    import collections
+    canary = canary_messages(message)
+    canary_live = canary_failure(message, canary) is None      # only judged if they decode on a fresh process
+    recent_err = collections.deque(maxlen=120)
+    nerr = 0
     _raise_stack_limit()
     outs = common.run_model([model_line(c) for c in cases])
     stats = res.extra.setdefault('stats', {'msg': 0, 'un': 0, 'impl_ok': 0, 'impl_err': 0, 'resource_limit': 0, 'aborted': 0,
@@ -195,6 +251,16 @@ def evaluate(ctx, cases, res):
             nsig, ndata = len(c['sig']), len(data)
         if cls == 'err':
             stats['err_classes'][val] = stats['err_classes'].get(val, 0) + 1
+        if cls in ('err', 'reslimit', 'abort'):
+            recent_err.append(c)
+            nerr += 1
+            if canary_live and nerr % 40 == 0:
+                why = canary_failure(message, canary)
+                if why is not None:
+                    canary_live = False
+                    res.violate({'kind': 'canary', 'after': list(recent_err)},
+                                'after decoding malformed inputs (each of which only raised), a VALID message is refused: %s - the cost '
+                                'of hostile bytes is not confined to the peer that sent them' % why, SIG_CANARY)
         m_ok = o[0] == 1
         m_calls, m_scan, m_units, m_deep = o[3], o[4], o[5], o[6]
         m_obs = (o[1], o[2]) if m_ok else None
